@@ -575,8 +575,10 @@ def _r1(ctx):
     extra_bvals = {}
 
     def seqs_of(it_):
-        """the sequences a loop walks position by position: through enumerate(..) and zip(..)"""
+        """the sequences a loop walks position by position: through enumerate(..) and zip(..); `L[:]` is L"""
         it_ = strip_transparent(simp(it_))
+        while it_[0] == "sub" and len(it_) == 3 and it_[2][0] == "slice" and all(x in (None, ("const", None)) for x in it_[2][1:]):
+            it_ = strip_transparent(simp(it_[1]))
         if it_[0] == "call" and it_[1] == ("global", "enumerate") and it_[2]:
             return seqs_of(it_[2][0])
         if it_[0] == "call" and it_[1] == ("global", "zip") and not it_[3]:
@@ -625,6 +627,17 @@ def _r1(ctx):
             stores = [f for f in fl.facts if f.kind in ("store", "augstore") and f.target == b_[1] and f.value is not None]
             if inits and stores and all(not opaque(x) for f in inits for x, _ in sources(f.value)) \
                     and not all(isinstance(simp(f.value), tuple) and simp(f.value)[0] == "meth" and simp(f.value)[2] == "rateexpr" for f in stores):
+                # understood and wrong: an entry replaced by a reference to a coefficient (text built around the array symbol) or by a
+                # rewriting of the entry it replaces; any other in-place edit (a list filled with blanks first, a guard completed in a
+                # second pass) is a construction this rule does not follow
+                def rewrites(f_):
+                    v_ = simp(f_.value)
+                    return any(y == SYM for y in walk(v_)) or (v_[0] == "meth" and v_[2] in ("replace", "lower", "upper", "format", "strip", "lstrip", "rstrip")
+                                                              and any(isinstance(y, tuple) and y and y[0] in ("sub", "elem", "acc") for y in walk(v_[1])))
+                if not any(rewrites(f_) for f_ in stores):
+                    ctx.unrec("R1", "_assign_rates:iteration", (FILE, stores[0].line), f"entries of `{b_[1]}` are stored in place after the list was built: how the final entries relate "
+                              "to the reactions is not followed: " + show(simp(stores[0].value))[:100])
+                    return
                 ctx.bad("R1", "_assign_rates:iteration", (FILE, stores[0].line),
                         f"entries of `{b_[1]}` are overwritten in place after the list was built one entry per reaction: the statement of a reaction no longer carries "
                         "that reaction's own guard / reac.rateexpr()", expected="no element store into the guard / rate lists", found=show(simp(stores[0].value))[:100])
@@ -863,11 +876,27 @@ def _loops_enclosing(spans, off):
     return tuple(sorted(s for s, e, lp in spans if lp and s < off < e))
 
 
+def _const_outs(items):
+    """the items with every output of a literal string (`{{ "text" }}`, a {% set %} alias of one after J.propagate_sets) as text"""
+    out = []
+    for it in items:
+        if it[0] == "out" and it[1][0] == "const" and isinstance(it[1][1], str):
+            out.append(("text", it[1][1]) + tuple(it[2:]))
+        elif it[0] == "for":
+            out.append(it[:3] + (tuple(_const_outs(it[3])), tuple(_const_outs(it[4]))) + tuple(it[5:]))
+        elif it[0] == "if":
+            out.append(it[:2] + (tuple(_const_outs(it[2])), tuple(_const_outs(it[3]))) + tuple(it[4:]))
+        else:
+            out.append(it)
+    return out
+
+
 def _r2(ctx):
     n = 0
     for label, rel, cfg in CALLER_TEMPLATES:
         ctx.saw(rel)
-        sk = Skel(J.flatten(ctx.tree, rel, cfg))
+        # (`{% set zero = "{0.0}" %} .. = {{ zero }};`: a name standing for a literal text prints that text)
+        sk = Skel(_const_outs(J.propagate_sets(J.flatten(ctx.tree, rel, cfg))))
         for f in sk.funcs:
             body = sk.plain(f.body)
             spans = _blocks(body)
@@ -885,6 +914,12 @@ def _r2(ctx):
                 init = d.group(2)
                 # `= {0.0}`, `= {0}`, `= {}` (C++ value-initialisation) all zero the whole array
                 zero = init is not None and re.fullmatch(r"\s*(0(\.0*)?f?)?\s*", init) is not None
+                if init is not None and not zero and re.fullmatch(r"\s*[-+]?(\d+\.?\d*|\.\d+)([eE][-+]?\d+)?f?\s*(,\s*[-+]?(\d+\.?\d*|\.\d+)([eE][-+]?\d+)?f?\s*)*,?\s*", init) is None:
+                    # an initialiser that is not a list of numeric literals (a macro, a template hole): what it puts into the array is not read
+                    ctx.unrec("R2", key, (rel, 0), f"cannot read the initialiser of `{arr}`: {d.group(0)[:80]}")
+                    continue
+                if init is not None and not zero and all(float(x.rstrip("fF")) == 0 for x in re.split(r"\s*,\s*", init.strip().rstrip(",").strip()) if x):
+                    zero = True                      # {0.0e0}, {0.0, 0.0}: zeros in another spelling
                 zstart = d.start()
                 between = body[d.end():m.start()]
                 if not zero:
@@ -946,8 +981,15 @@ def _paste(it):
     if b is not None:
         seq, fs, idxvar = b, [], it[1]
     if seq[0] == "item" and seq[2][0] == "slice":
-        return "wrong", seq[1], f"only the slice {J.show(seq[2])} of the list is pasted"
+        if all(x in (None, ("const", None)) or (i_ == 0 and x == ("const", 0)) for i_, x in enumerate(seq[2][1:])):
+            seq = seq[1]                       # L[:] / L[0:] is every entry of L
+        else:
+            return "wrong", seq[1], f"only the slice {J.show(seq[2])} of the list is pasted"
+    if seq[0] == "item" and seq[1] == _ODE and seq[2][0] == "const" and isinstance(seq[2][1], str):
+        seq = ("attr", _ODE, seq[2][1])        # ode["rateeqns"] is ode.rateeqns
     for f in fs:
+        if f[0] in ("default", "d") and len(f[1]) <= 1 and not f[2]:
+            continue                           # the list is always defined: `| default([])` changes nothing
         if f[0] in _LOSSY_FILTERS:
             return "wrong", seq, f"the list is passed through `{f[0]}` before it is pasted"
         if f[0] != "list":
@@ -967,6 +1009,8 @@ def _paste(it):
     if base not in elem:
         return "unknown", seq, f"the loop prints `{J.show(outs[0][1])}`, not the entry itself"
     for f in ofs:
+        if f[0] in ("default", "d") and len(f[1]) <= 1 and not f[2]:
+            continue                           # every entry is a defined string
         if f[0] in _LOSSY_FILTERS:
             return "wrong", seq, f"every entry is passed through `{f[0]}`, which can change the statement"
         if f[0] not in _WS_FILTERS:
@@ -1014,6 +1058,9 @@ def _r3(ctx):
             found = J.show(it[2]) + " -> " + "; ".join(J.show(o[1]) for o in it[3] if o[0] == "out")
             if verdict == "unknown":
                 ctx.unrec("R3", key, (rel, it[5]), f"cannot see that {fname} prints every entry of ode.{field} exactly once: {why}")
+            elif verdict != "wrong" and seq != want and not (seq[0] == "attr" and seq[1] == _ODE):
+                # not another list of ode (an alias that was not resolved, an expression over the list): what is pasted is not read
+                ctx.unrec("R3", key, (rel, it[5]), f"cannot see that {fname} prints every entry of ode.{field} exactly once: the loop walks {J.show(seq)[:80]}")
             elif verdict == "wrong" or seq != want:
                 ctx.bad("R3", key, (rel, it[5]), f"{fname} does not output every entry of ode.{field} once, in order, unchanged: " + (why or f"the list pasted is {J.show(seq)}"),
                         expected=f"for assign in ode.{field}: {{{{ assign | stmwrap }}}}", found=found)
@@ -1425,6 +1472,8 @@ def _krome_window_stores(ctx, pkg, fn):
             return c
         from ..valueflow import split_guard
         G = [g2 for c, pol in f.guards for g2 in split_guard((rewrite(c), pol))]
+        if not guards_satisfiable(G):
+            continue                # a leaf of a conditional value on a path its own guards exclude (`x = f(v); if x is not None: self.a = x`)
         keyatoms = sorted({x for c, _ in G for x in walk(c) if isinstance(x, tuple) and len(x) == 3 and x[0] == "cmp" and x[1] == ("Eq",) and x[2][0] == key and x[2][1][0] == "const"}, key=repr)
         excl = [(("bool", "And", (a, b)), False) for i, a in enumerate(keyatoms) for b in keyatoms[i + 1:]]
         KG = [(c, pol) for c, pol in G if any(x in keyatoms for x in walk(c))]
@@ -1474,6 +1523,11 @@ def _krome_window_stores(ctx, pkg, fn):
                     nones |= set(lit_set(c[2][1]))
                     seen_test = True
                     continue
+                if left[0] == "meth" and left[2] in ("lower", "casefold") and not left[3] and _replace_chain(left[1])[0] == val \
+                        and all(isinstance(x, str) and x == x.lower() for x in lit_set(c[2][1])):
+                    nones |= {x.upper() for x in lit_set(c[2][1])}       # the same test on the lower-cased field
+                    seen_test = True
+                    continue
             if c[0] == "cmp" and c[1] == ("Eq",) and c[2][0] == val and c[2][1] == ("const", "") and not pol:
                 nones.add("")
                 continue
@@ -1489,7 +1543,9 @@ def _krome_window_stores(ctx, pkg, fn):
     if decided:
         for which in ("tmin", "tmax"):
             if which not in seen and not any(o.rule == "R4" and o.key.startswith(f"KROME:{which}:") for o in ctx.obs):
-                if hidden:
+                attr_ = "temp_" + which[1:]
+                elsewhere = any((isinstance(n, ast.Attribute) and n.attr == attr_ and isinstance(n.ctx, ast.Store)) or (isinstance(n, ast.Constant) and n.value == attr_) for n in ast.walk(fl.func))
+                if hidden or elsewhere:
                     ctx.unrec("R4", f"KROME:{which}:target", (KROME, fn.lineno), f"no plain store of the {which} column is visible (attributes are also set indirectly)")
                     continue
                 ctx.bad("R4", f"KROME:{which}:target", (KROME, fn.lineno), f"the {which} column is never stored into self.temp_{which[1:]}")
@@ -1509,14 +1565,30 @@ def _r4(ctx):
     ctx.floor("R4", "KROME window stores", found, 2, (KROME, fn.lineno))
     # defaults
     init = pkg.method("Reaction", "__init__")
-    names = [a.arg for a in init.args.args]
+    names = [a.arg for a in init.args.posonlyargs + init.args.args]
     defs = dict(zip(names[len(names) - len(init.args.defaults):], init.args.defaults))
+    defs.update({a.arg: d for a, d in zip(init.args.kwonlyargs, init.args.kw_defaults) if d is not None})
+    RFILE_ = pkg.cls("Reaction").file
     for a in ("temp_min", "temp_max"):
+        node = defs.get(a)
+        # a default spelled with a constant of the module / of the class (UNBOUNDED = -1.0) is that constant
+        for _ in range(3):
+            if isinstance(node, ast.Name):
+                node = next((st.value for st in pkg.modules[RFILE_].body if isinstance(st, ast.Assign) and len(st.targets) == 1 and isinstance(st.targets[0], ast.Name)
+                             and st.targets[0].id == node.id), None) \
+                    if sum(1 for n_ in ast.walk(pkg.modules[RFILE_]) if isinstance(n_, ast.Name) and isinstance(n_.ctx, (ast.Store, ast.Del)) and n_.id == node.id) == 1 else None
+            elif isinstance(node, ast.Attribute) and isinstance(node.value, ast.Name) and node.value.id in ("Reaction", "self", "cls"):
+                node = pkg.resolve_attr("Reaction", node.attr)[1]
         try:
-            v = ast.literal_eval(defs[a])
+            v = ast.literal_eval(node)
         except Exception:
             v = None
-        ctx.check(v is not None and v <= 0, "R4", f"Reaction.__init__:{a} default", ("naunet/reactions/reaction.py", init.lineno),
+        if not isinstance(v, (int, float)) or isinstance(v, bool):
+            # (None as default, a default filled in by the body, a value computed elsewhere: not read here)
+            ctx.unrec("R4", f"Reaction.__init__:{a} default", (RFILE_, init.lineno), f"cannot read the default of `{a}` in Reaction.__init__ as a number: "
+                      + (ast.unparse(defs[a])[:60] if a in defs else "no such parameter with a default"))
+            continue
+        ctx.check(v <= 0, "R4", f"Reaction.__init__:{a} default", (RFILE_, init.lineno),
                   "a reaction without window carries a non-positive bound (= unbounded)", found=repr(v))
     _uclchem_freeze(ctx, pkg)
 
@@ -1535,7 +1607,7 @@ def _uclchem_freeze(ctx, pkg):
         if not (isinstance(c, tuple) and len(c) == 3 and c[0] == "cmp" and c[1] in (("Eq",), ("Is",)) and len(c[2]) == 2):
             return False
         l, r = show(c[2][0]), show(c[2][1])
-        return (l.endswith("reaction_type") and r.endswith("UCLCHEM_FR")) or (r.endswith("reaction_type") and l.endswith("UCLCHEM_FR"))
+        return ("reaction_type" in l and "UCLCHEM_FR" in r) or ("reaction_type" in r and "UCLCHEM_FR" in l)
     stores = [f for f in ufl.facts if f.kind == "attrstore" and f.target in ("temp_min", "temp_max") and f.extra.get("obj") == ("param", "self")]
     atoms = set()
     for f in stores:
@@ -1558,7 +1630,10 @@ def _uclchem_freeze(ctx, pkg):
                  and any(isinstance(n, ast.Attribute) and isinstance(n.ctx, ast.Store) and n.attr in ("temp_min", "temp_max") for n in ast.walk(node))]
     if not atoms and stores and elsewhere:
         ctx.unrec("R4", "UCLCHEM:FREEZE window", W, f"the window is also stored outside _parse_string ({', '.join(elsewhere)}): where freeze-out reactions get (0, 30) is not decided here")
-    elif not atoms and stores and all(simp(f.value)[0] == "call" and simp(f.value)[1] == ("global", "float") for f in stores):
+    elif not atoms and len(stores) == 2 and all(simp(f.value)[0] == "call" and simp(f.value)[1] == ("global", "float") for f in stores) \
+            and not any(isinstance(x, tuple) and x and x[0] in ("phi", "ifexp", "carried", "after", "acc", "unknown") for f in stores for x in walk(simp(f.value))) \
+            and len({tuple(f.guards) for f in stores}) == 1:
+        # understood and wrong: each bound stored once, unconditionally, as float(<field of the line>) -- nothing chooses (0, 30)
         ctx.bad("R4", "UCLCHEM:FREEZE window", W, "no store of the temperature window depends on the reaction type being UCLCHEM_FR: freeze-out reactions keep the window of the file "
                                                   "instead of (0, 30)", expected="lt, ut = 0, 30 for UCLCHEM_FR", found="; ".join(show(simp(f.value))[:40] for f in stores))
     elif unread or not atoms:
